@@ -291,7 +291,7 @@ def build_cases(seed: int, quick: bool):
             c["family"] = "tiny"
             cases.append(c)
     # duplicated literals / tautologies / unit+conflict mixes
-    for _ in range(300 if quick else 4000):
+    for _ in range(300 if quick else 40000):
         n = rng.randint(1, 5)
         f = random_cnf(rng, n, rng.randint(1, 7), dup=0.3, taut=0.2)
         a = []
@@ -300,7 +300,7 @@ def build_cases(seed: int, quick: bool):
         cases.append({"clauses": f, "assumptions": a, "solution_limit": rng.choice([1, 2, 3, 10, 100]),
                       "luby_factor": rng.choice([1, 2, 100]), "family": "dup-taut"})
     # (ii) random 3-SAT / mixed around the threshold, restarts forced
-    for _ in range(250 if quick else 4000):
+    for _ in range(250 if quick else 20000):
         n = rng.randint(6, 12) if rng.random() < 0.7 else rng.randint(13, 40)
         m = int(n * rng.uniform(3.2, 5.0))
         f = random_cnf(rng, n, m, lens=rng.choice([(3,), (2, 3), (1, 2, 3, 3), (3, 4)]), dup=0.02, taut=0.01)
@@ -311,7 +311,7 @@ def build_cases(seed: int, quick: bool):
                       "luby_factor": rng.choice([1, 2, 3, 100]), "family": "random", "small": n <= 14,
                       "timeout_s": 20})
     # tiny budgets: any status allowed, but models must be models and the call must return
-    for _ in range(100 if quick else 1500):
+    for _ in range(100 if quick else 15000):
         n = rng.randint(5, 14)
         f = random_cnf(rng, n, int(n * rng.uniform(3.5, 4.8)), lens=(3,))
         cases.append({"clauses": f, "assumptions": [], "solution_limit": rng.choice([1, 5]),
